@@ -1289,6 +1289,8 @@ func TestVerifC08(t *testing.T) {
 			c08PeerRecords(t, out, r, c, modeDs, pevery)
 			v := &circuit.ReservationVoucher{Relay: k.id, Peer: foreign.id, Expiration: time.Unix(1900000000, 0)}
 			c08Envelope(t, out, r, c, modeConsume, v, pevery, false)
+			// round 4: histories of one address book (kind 20): API path and stored-bytes edits
+			c08Books(t, out, r, k, foreign, thorough)
 		}
 	}
 }
@@ -1301,6 +1303,10 @@ func TestVerifC08Replay(t *testing.T) {
 		t.Skip("nothing to replay")
 	}
 	defer out.Close()
+	if toks[0] == 20 {
+		c08ReplayBook(t, out, toks)
+		return
+	}
 	if toks[0] != 6 {
 		out.Case(toks) // other kinds are judged as recorded
 		return
